@@ -1114,9 +1114,25 @@ package query
 //@   trusted assumed ghost-free summary of the sync.Map behind the table cache
 //@   ensures result1 ==> result0 != nil && result0.FileInfo != nil
 //@   modifies nothing
+// C08: publication. A data-changing statement works on a copy and makes it visible to the following statements only by
+// ViewMap.Set (file-backed tables) or ReplaceTemporaryTable (temporary tables); the ghost counter published counts the
+// publications a statement function makes in its own body (program-point ghost updates; loading a table into the cache,
+// which also goes through ViewMap.Set inside cacheViewFromFile, is not a publication of a changed copy).
+//@ ghost var published int
 //@ func (ViewMap).Set
 //@   trusted assumed: publishes the view in the cache
 //@   modifies * except F:query.ReferenceScope. F:query.Transaction. F:query.View. F:query.FileInfo.
+//@ func (*ReferenceScope).ReplaceTemporaryTable
+//@   trusted assumed: publishes the view in the block that declares the temporary table (sync.Map)
+//@   modifies * except F:query.ReferenceScope. F:query.Transaction. F:query.View. F:query.FileInfo.
+//@ func (Header).Update
+//@   property C08
+//@   ensures [no-error-without-a-column-list] len(fields) == 0 ==> result == nil
+//@   modifies *
+//@ func (*View).RestoreHeaderReferences
+//@   property C08
+//@   ensures [never-fails] result == nil
+//@   modifies *
 //@ func (ViewMap).Dispose
 //@   trusted assumed: closes the cached view's handler and drops the entry
 //@   modifies * except F:query.ReferenceScope. F:query.Transaction. F:query.View. F:query.FileInfo.
